@@ -222,7 +222,7 @@ func c20Run(r *vkit.Run) {
 
 func c20Replay(r *vkit.Run, v vkit.Violation) *vkit.Violation {
 	var in c20Input
-	if err := json.Unmarshal(v.Input, &in); err != nil {
+	if err := vkit.DecodeInput(v, &in); err != nil {
 		r.HarnessError("bad input: %v", err)
 	}
 	return vkit.ReplayOne(r, func() { c20Check(r, in) })
